@@ -5,6 +5,7 @@
 import FianoModel.Uefi.PlaceLemmas
 
 namespace Fiano.Uefi
+open EditArith
 open Fiano
 
 /-- everything the loop appends for the remaining files, the previous one having ended at `off` -/
@@ -73,6 +74,7 @@ theorem placeFiles_eq (pol : UInt8) (hp : pol = 0xFF ∨ pol = 0) (l : List (Nat
 end Fiano.Uefi
 
 namespace Fiano.Uefi
+open EditArith
 open Fiano
 
 /-! ### the reader on concatenations -/
@@ -179,6 +181,7 @@ theorem filesOk_step (fuel : Nat) (e : UInt8) (P X R : Bytes) (g : Nat)
 end Fiano.Uefi
 
 namespace Fiano.Uefi
+open EditArith
 open Fiano
 
 /-- what the relayout needs to know about a file it places: `x = (attribute byte, buffer)` -/
